@@ -78,6 +78,7 @@ var dumpCtr int64
 
 type Answer struct {
 	Res    Result
+	Values []string          // values of Script.Get, in order
 	Model  map[string]string // printed-name -> value text
 	Err    string
 	Millis int64
@@ -202,6 +203,7 @@ func (s *Solver) Check(sc *Script, timeoutMs int) Answer {
 				for k, v := range vals {
 					ans.Model[getNames[i+k]] = v
 				}
+				ans.Values = append(ans.Values, vals...)
 			}
 		}
 	default:
